@@ -53,6 +53,9 @@ pub fn c09_directed() -> Vec<(&'static str, &'static str)> {
         ("function-does-not-see-callers-locals", "functie binnen() { lokaal } functie buiten() { stel lokaal = 2; binnen() } buiten()"),
         ("parameter-shadows-global", "stel n = 5; functie f(n) { n = n + 1; n } [f(1), n]"),
         ("local-shadows-global-after-use", "stel n = 5; functie f() { stel a = n; stel n = 7; [a, n] } [f(), n]"),
+        ("enclosing-local-is-not-visible-global-is", "stel teller = 100; functie buiten(teller) { functie binnen(a) { teller + a + 3 }; binnen(5) }; print(\"start\"); buiten(10)"),
+        ("enclosing-local-is-not-visible-undeclared", "functie buiten(b) { functie binnen(a) { a + b }; binnen(5) }; print(\"start\"); buiten(10)"),
+        ("enclosing-local-three-levels", "stel x = 1; functie a1(x) { functie a2(y) { functie a3(z) { x + z }; a3(y) }; a2(x + 10) }; a1(50)"),
         ("undeclared-after-print", "print(\"eerst\"); onbekend"),
         ("undeclared-in-uncalled-function", "print(\"eerst\"); functie nooit() { onbekend }; 1"),
         ("undeclared-in-dead-branch", "print(\"eerst\"); als nee { onbekend }; 1"),
